@@ -20,11 +20,11 @@ def run(tier, replay=None):
         out = os.path.join(wd, "res-%s.json" % name)
         r = tlc("trace/TraceGF", wd=wd, env={"VERIF_IN": dump, "VERIF_OUT": out}, timeout=600)
         res = read_ndjson(out)[0]
-        n = res["mul_rows"] * 256 + res["inv"] * 256 + res["nib"] * 32 + res["gfni"] * 256
+        n = res["mul_rows"] * 256 + res["inv"] * 256 + res["nib"] * 32 + res["gfni"] * 256 + res.get("vmul", 0) * 512
         cov["evaluations"] += n
         cov["distinct_nontrivial"] += 254 * 254 + 254 + (res["nib"] + res["gfni"]) * 254 // 256
         cov["builds"].append({"build": name, "mul_rows": res["mul_rows"], "inv_tables": res["inv"],
-                              "nibble_tables": res["nib"], "gfni_matrices": res["gfni"], "field_axioms_ok": res["field_ok"]})
+                              "nibble_tables": res["nib"], "gfni_matrices": res["gfni"], "constant_multiply_kernel_runs": res.get("vmul", 0), "field_axioms_ok": res["field_ok"]})
         if not res["field_ok"]:
             raise Infra("GF256.tla field axioms failed: the specification itself is wrong")
         if res["mul_rows"] != 256 or res["inv"] != 1 or res["nib"] + res["gfni"] != 1024:
